@@ -3,6 +3,7 @@ package main
 import (
 	"fmt"
 	"go/constant"
+	"go/token"
 	"go/types"
 	"regexp/syntax"
 	"strings"
@@ -554,6 +555,34 @@ func ruleLineLimitCounting(c *Ctx) {
 					okRange = true
 				}
 			})
+			if !okRange {
+				// index form: for i := 0; i < n; i++ { ... b[i] ... } with n the count returned by the underlying Read
+				if iff, ok := loop.header.Instrs[len(loop.header.Instrs)-1].(*ssa.If); ok {
+					if bo, ok := iff.Cond.(*ssa.BinOp); ok && bo.Op == token.LSS && describe(bo.Y) == "invoke:Reader.Read#0" {
+						if phi, ok := bo.X.(*ssa.Phi); ok && phi.Block() == loop.header {
+							zero, step := false, false
+							for _, e := range phi.Edges {
+								if k, isK := constInt(e); isK && k == 0 {
+									zero = true
+								} else if add, isAdd := e.(*ssa.BinOp); isAdd && add.Op == token.ADD && add.X == ssa.Value(phi) {
+									if k, isK := constInt(add.Y); isK && k == 1 {
+										step = true
+									}
+								}
+							}
+							indexed := false
+							for b := range loop.blocks {
+								for _, in := range b.Instrs {
+									if ia, ok := in.(*ssa.IndexAddr); ok && describe(ia.X) == "param1" && ia.Index == ssa.Value(phi) {
+										indexed = true
+									}
+								}
+							}
+							okRange = zero && step && indexed && len(phi.Edges) == 2
+						}
+					}
+				}
+			}
 			R.Ob("(*lineLimitReader).Read/loop covers b[:n]", c.P.Pos(f.Pos()), okRange, "the counting loop does not range over exactly the octets returned by the underlying Read")
 		}
 		for _, st := range s.Find(f, "st:lineLimitReader.curLineLength=0") {
